@@ -92,7 +92,7 @@ def run_program(ops):
         prog.append((api, _s(name), value if isinstance(value, bytes) else _s(value), kw))
     box["prog"], box["raised"], box["seen"] = prog, [], None
     with LogCapture(), W.WebPatch(time=w["time"]):
-        code, headers, body, closed = W.http_exchange(w["env"], w["srv"], b"GET /set HTTP/1.1\r\nHost: x\r\n\r\n")
+        code, headers, body, closed, raw = W.http_exchange_raw(w["env"], w["srv"], b"GET /set HTTP/1.1\r\nHost: x\r\n\r\n")
         ev = []
         for (api, name, value, a), (papi, pname, pvalue, pkw), r in zip(ops, prog, box["raised"] + [None] * len(ops)):
             attrs = dict(a)
@@ -105,7 +105,7 @@ def run_program(ops):
                 attrs.update(expires=True)
                 val = list(web.create_signed_value("c25-secret", pname, pvalue, clock=lambda: FIXED_NOW))
             ev.append({"a": "set", "args": [list(name), val, attrs], "obs": {"raised": r is not None, "exc": r or "", "api": api}})
-        lines = [v for k, v in headers if k.lower() == "set-cookie"] if code is not None else []
+        lines = W.header_values(raw, "Set-Cookie") if code is not None else []
         readback, pairs = [], []
         for ln in lines:
             nv = ln.split(";", 1)[0]
